@@ -1,6 +1,623 @@
 package instr
 
 // access.go: memory-access events for the happens-before race detector.
-// (filled in below; see instrumentAccesses)
+//
+// Before every statement the plain (unsynchronised) reads it performs are
+// announced with zzcore.Read(addr, what); after assignments the writes with
+// zzcore.Write.  Locations:
+//   (a) fields of struct types declared in this package (address &x.f),
+//   (b) map contents, by map identity (zzcore.MapPtr(m)),
+//   (c) slice elements (address &s[i]),
+//   (d) local variables captured by a function literal (address &v).
+// Anything that cannot be announced without evaluating side effects twice, or
+// that is only conditionally evaluated (right operands of && and ||), is
+// skipped: the detector may miss a race there but never invents one.
 
-func (r *rewriter) instrumentAccesses() {}
+import (
+	"fmt"
+	"go/ast"
+	"go/token"
+	"go/types"
+	"strconv"
+)
+
+type access struct {
+	ptr   ast.Expr // expression of type unsafe.Pointer
+	what  string
+	write bool
+	key   string
+}
+
+func (r *rewriter) instrumentAccesses() {
+	r.captured = map[*types.Var]bool{}
+	// else-if => else { if }, so that every condition has a place for its events
+	ast.Inspect(r.file, func(n ast.Node) bool {
+		if s, ok := n.(*ast.IfStmt); ok {
+			if e, ok := s.Else.(*ast.IfStmt); ok {
+				s.Else = &ast.BlockStmt{List: []ast.Stmt{e}}
+			}
+		}
+		return true
+	})
+	for _, d := range r.file.Decls {
+		fd, ok := d.(*ast.FuncDecl)
+		if !ok || fd.Body == nil {
+			continue
+		}
+		r.findCaptured(fd)
+	}
+	for _, d := range r.file.Decls {
+		fd, ok := d.(*ast.FuncDecl)
+		if !ok || fd.Body == nil {
+			continue
+		}
+		fd.Body.List = r.instrList(fd.Body.List)
+	}
+}
+
+// findCaptured marks local variables that are used inside a function literal
+// which does not contain their declaration.
+func (r *rewriter) findCaptured(fd *ast.FuncDecl) {
+	var lits []*ast.FuncLit
+	var walk func(n ast.Node)
+	walk = func(n ast.Node) {
+		ast.Inspect(n, func(m ast.Node) bool {
+			switch x := m.(type) {
+			case *ast.FuncLit:
+				if m == n {
+					return true
+				}
+				lits = append(lits, x)
+				walk(x.Body)
+				lits = lits[:len(lits)-1]
+				return false
+			case *ast.Ident:
+				if len(lits) == 0 {
+					return true
+				}
+				v, ok := r.info.Uses[x].(*types.Var)
+				if !ok || v.IsField() || v.Pkg() != r.pkg || v.Parent() == r.pkg.Scope() {
+					return true
+				}
+				inner := lits[len(lits)-1]
+				if v.Pos() < inner.Pos() || v.Pos() > inner.End() {
+					r.captured[v] = true
+				}
+			}
+			return true
+		})
+	}
+	walk(fd.Body)
+}
+
+func (r *rewriter) posString(n ast.Node) string {
+	p := r.fset.Position(n.Pos())
+	f := p.Filename
+	for i := len(f) - 1; i >= 0; i-- {
+		if f[i] == '/' {
+			f = f[i+1:]
+			break
+		}
+	}
+	return f + ":" + strconv.Itoa(p.Line)
+}
+
+// ---- expression cloning (only side-effect free forms)
+
+func (r *rewriter) pure(e ast.Expr) bool {
+	switch x := e.(type) {
+	case *ast.Ident, *ast.BasicLit:
+		return true
+	case *ast.ParenExpr:
+		return r.pure(x.X)
+	case *ast.SelectorExpr:
+		return r.pure(x.X)
+	case *ast.StarExpr:
+		return r.pure(x.X)
+	case *ast.IndexExpr:
+		return r.pure(x.X) && r.pure(x.Index)
+	case *ast.BinaryExpr:
+		return r.pure(x.X) && r.pure(x.Y)
+	case *ast.UnaryExpr:
+		return x.Op != token.ARROW && r.pure(x.X)
+	}
+	return false
+}
+
+func cloneExpr(e ast.Expr) ast.Expr {
+	switch x := e.(type) {
+	case *ast.Ident:
+		return ast.NewIdent(x.Name)
+	case *ast.BasicLit:
+		return &ast.BasicLit{Kind: x.Kind, Value: x.Value}
+	case *ast.ParenExpr:
+		return &ast.ParenExpr{X: cloneExpr(x.X)}
+	case *ast.SelectorExpr:
+		return &ast.SelectorExpr{X: cloneExpr(x.X), Sel: ast.NewIdent(x.Sel.Name)}
+	case *ast.StarExpr:
+		return &ast.StarExpr{X: cloneExpr(x.X)}
+	case *ast.IndexExpr:
+		return &ast.IndexExpr{X: cloneExpr(x.X), Index: cloneExpr(x.Index)}
+	case *ast.BinaryExpr:
+		return &ast.BinaryExpr{X: cloneExpr(x.X), Op: x.Op, Y: cloneExpr(x.Y)}
+	case *ast.UnaryExpr:
+		return &ast.UnaryExpr{Op: x.Op, X: cloneExpr(x.X)}
+	}
+	panic(fmt.Sprintf("cloneExpr: %T", e))
+}
+
+func exprKey(e ast.Expr) string {
+	switch x := e.(type) {
+	case *ast.Ident:
+		return x.Name
+	case *ast.BasicLit:
+		return x.Value
+	case *ast.ParenExpr:
+		return "(" + exprKey(x.X) + ")"
+	case *ast.SelectorExpr:
+		return exprKey(x.X) + "." + x.Sel.Name
+	case *ast.StarExpr:
+		return "*" + exprKey(x.X)
+	case *ast.IndexExpr:
+		return exprKey(x.X) + "[" + exprKey(x.Index) + "]"
+	case *ast.BinaryExpr:
+		return exprKey(x.X) + x.Op.String() + exprKey(x.Y)
+	case *ast.UnaryExpr:
+		return x.Op.String() + exprKey(x.X)
+	}
+	return "?"
+}
+
+func (r *rewriter) unsafePtr(addr ast.Expr) ast.Expr {
+	r.needUnsafe = true
+	return &ast.CallExpr{Fun: &ast.SelectorExpr{X: ast.NewIdent("zzunsafe"), Sel: ast.NewIdent("Pointer")}, Args: []ast.Expr{addr}}
+}
+
+// ---- what is a tracked location?
+
+func isSyncType(t types.Type) bool {
+	for {
+		if p, ok := t.(*types.Pointer); ok {
+			t = p.Elem()
+			continue
+		}
+		break
+	}
+	if n, ok := t.(*types.Named); ok && n.Obj().Pkg() != nil {
+		switch n.Obj().Pkg().Path() {
+		case "sync", "sync/atomic":
+			return true
+		}
+	}
+	if _, ok := t.Underlying().(*types.Chan); ok {
+		return true
+	}
+	return false
+}
+
+// rootIsLocalValue: x.f.g where the base identifier is a local non-pointer
+// struct (e.g. a value receiver): thread-local, not tracked.
+func (r *rewriter) rootIsLocalValue(e ast.Expr) bool {
+	for {
+		switch x := e.(type) {
+		case *ast.ParenExpr:
+			e = x.X
+			continue
+		case *ast.SelectorExpr:
+			if sel := r.info.Selections[x]; sel != nil && sel.Indirect() {
+				return false // goes through a pointer somewhere
+			}
+			e = x.X
+			continue
+		case *ast.Ident:
+			v, ok := r.info.Uses[x].(*types.Var)
+			if !ok {
+				return false
+			}
+			if _, isPtr := v.Type().Underlying().(*types.Pointer); isPtr {
+				return false
+			}
+			return v.Parent() != r.pkg.Scope() && !r.captured[v]
+		}
+		return false
+	}
+}
+
+func (r *rewriter) fieldAccess(sel *ast.SelectorExpr, write bool) *access {
+	s := r.info.Selections[sel]
+	if s == nil || s.Kind() != types.FieldVal {
+		return nil
+	}
+	f, ok := s.Obj().(*types.Var)
+	if !ok || f.Pkg() != r.pkg || isSyncType(f.Type()) {
+		return nil
+	}
+	tv, ok := r.info.Types[sel]
+	if !ok || !tv.Addressable() || !r.pure(sel) || r.rootIsLocalValue(sel) {
+		return nil
+	}
+	recv := s.Recv()
+	for {
+		if p, ok := recv.(*types.Pointer); ok {
+			recv = p.Elem()
+			continue
+		}
+		break
+	}
+	tn := "struct"
+	if n, ok := recv.(*types.Named); ok {
+		tn = n.Obj().Name()
+	}
+	return &access{ptr: r.unsafePtr(&ast.UnaryExpr{Op: token.AND, X: cloneExpr(sel)}), what: fmt.Sprintf("%s.%s", tn, f.Name()), write: write, key: "f:" + exprKey(sel)}
+}
+
+func (r *rewriter) varAccess(id *ast.Ident, write bool) *access {
+	v, ok := r.info.Uses[id].(*types.Var)
+	if !ok || !r.captured[v] || isSyncType(v.Type()) {
+		return nil
+	}
+	return &access{ptr: r.unsafePtr(&ast.UnaryExpr{Op: token.AND, X: ast.NewIdent(id.Name)}), what: "captured variable " + id.Name, write: write, key: "v:" + id.Name}
+}
+
+func (r *rewriter) mapAccess(m ast.Expr, write bool) *access {
+	t := r.typeOf(m)
+	if t == nil {
+		return nil
+	}
+	if _, ok := t.Underlying().(*types.Map); !ok || !r.pure(m) {
+		return nil
+	}
+	return &access{ptr: r.call("MapPtr", cloneExpr(m)), what: "contents of map " + exprKey(m), write: write, key: "m:" + exprKey(m)}
+}
+
+func (r *rewriter) elemAccess(ix *ast.IndexExpr, write bool) *access {
+	t := r.typeOf(ix.X)
+	if t == nil {
+		return nil
+	}
+	if _, ok := t.Underlying().(*types.Slice); !ok || !r.pure(ix) {
+		return nil
+	}
+	return &access{ptr: r.unsafePtr(&ast.UnaryExpr{Op: token.AND, X: cloneExpr(ix)}), what: "element " + exprKey(ix), write: write, key: "e:" + exprKey(ix)}
+}
+
+type accSet struct {
+	list []*access
+	seen map[string]bool
+}
+
+func (a *accSet) add(x *access) {
+	if x == nil {
+		return
+	}
+	k := x.key
+	if x.write {
+		k = "W" + k
+	}
+	if a.seen == nil {
+		a.seen = map[string]bool{}
+	}
+	if a.seen[k] {
+		return
+	}
+	a.seen[k] = true
+	a.list = append(a.list, x)
+}
+
+// reads collects the plain reads performed when e is evaluated.
+func (r *rewriter) reads(e ast.Expr, acc *accSet) {
+	switch x := e.(type) {
+	case nil:
+	case *ast.Ident:
+		acc.add(r.varAccess(x, false))
+	case *ast.ParenExpr:
+		r.reads(x.X, acc)
+	case *ast.SelectorExpr:
+		if r.isPkgName(x.X) {
+			return
+		}
+		r.reads(x.X, acc)
+		acc.add(r.fieldAccess(x, false))
+	case *ast.StarExpr:
+		r.reads(x.X, acc)
+	case *ast.IndexExpr:
+		r.reads(x.X, acc)
+		r.reads(x.Index, acc)
+		acc.add(r.mapAccess(x.X, false))
+		acc.add(r.elemAccess(x, false))
+	case *ast.SliceExpr:
+		r.reads(x.X, acc)
+		r.reads(x.Low, acc)
+		r.reads(x.High, acc)
+		r.reads(x.Max, acc)
+	case *ast.UnaryExpr:
+		if x.Op == token.AND {
+			// &x.f takes an address: the base is read, the field itself is not
+			switch y := ast.Unparen(x.X).(type) {
+			case *ast.SelectorExpr:
+				r.reads(y.X, acc)
+			case *ast.IndexExpr:
+				r.reads(y.X, acc)
+				r.reads(y.Index, acc)
+			case *ast.CompositeLit:
+				r.reads(y, acc)
+			}
+			return
+		}
+		r.reads(x.X, acc)
+	case *ast.BinaryExpr:
+		r.reads(x.X, acc)
+		if x.Op != token.LAND && x.Op != token.LOR {
+			r.reads(x.Y, acc) // right operands of && / || are evaluated conditionally: skipped
+		}
+	case *ast.CallExpr:
+		if id, ok := x.Fun.(*ast.Ident); ok && len(x.Args) >= 1 {
+			switch {
+			case r.isBuiltin(id, "len") || r.isBuiltin(id, "cap"):
+				r.reads(x.Args[0], acc)
+				acc.add(r.mapAccess(x.Args[0], false))
+				return
+			case r.isBuiltin(id, "delete"):
+				for _, a := range x.Args {
+					r.reads(a, acc)
+				}
+				return // the write is announced by the statement handler
+			}
+		}
+		// method value / function expression: the receiver is read unless the method takes its address
+		switch f := x.Fun.(type) {
+		case *ast.SelectorExpr:
+			if !r.isPkgName(f.X) {
+				if s := r.info.Selections[f]; s != nil && s.Kind() == types.MethodVal {
+					if _, ptrRecv := s.Obj().(*types.Func).Type().(*types.Signature).Recv().Type().(*types.Pointer); ptrRecv {
+						// x.m() with pointer receiver: &x is taken (or x is a pointer that is read)
+						if _, isPtr := r.typeOf(f.X).Underlying().(*types.Pointer); isPtr {
+							r.reads(f.X, acc)
+						} else if sel, ok := ast.Unparen(f.X).(*ast.SelectorExpr); ok {
+							r.reads(sel.X, acc)
+						}
+					} else {
+						r.reads(f.X, acc)
+					}
+				} else {
+					r.reads(f, acc)
+				}
+			}
+		case *ast.FuncLit:
+		default:
+			r.reads(x.Fun, acc)
+		}
+		for _, a := range x.Args {
+			r.reads(a, acc)
+		}
+	case *ast.TypeAssertExpr:
+		r.reads(x.X, acc)
+	case *ast.CompositeLit:
+		for _, el := range x.Elts {
+			if kv, ok := el.(*ast.KeyValueExpr); ok {
+				if _, isStruct := r.typeOf(x).Underlying().(*types.Struct); !isStruct {
+					r.reads(kv.Key, acc)
+				}
+				r.reads(kv.Value, acc)
+			} else {
+				r.reads(el, acc)
+			}
+		}
+	case *ast.KeyValueExpr:
+		r.reads(x.Value, acc)
+	case *ast.FuncLit:
+		// body handled separately; creating the closure reads nothing
+	}
+}
+
+// target: e is assigned to.  Sub-expressions are read, the location is written.
+func (r *rewriter) target(e ast.Expr, rd, wr *accSet) {
+	switch x := ast.Unparen(e).(type) {
+	case *ast.Ident:
+		if x.Name != "_" {
+			wr.add(r.varAccess(x, true))
+		}
+	case *ast.SelectorExpr:
+		r.reads(x.X, rd)
+		wr.add(r.fieldAccess(x, true))
+	case *ast.IndexExpr:
+		r.reads(x.X, rd)
+		r.reads(x.Index, rd)
+		wr.add(r.mapAccess(x.X, true))
+		wr.add(r.elemAccess(x, true))
+	case *ast.StarExpr:
+		r.reads(x.X, rd)
+	}
+}
+
+func (r *rewriter) emit(list []*access) []ast.Stmt {
+	var out []ast.Stmt
+	for _, a := range list {
+		fn := "Read"
+		if a.write {
+			fn = "Write"
+		}
+		r.st.Accesses++
+		out = append(out, &ast.ExprStmt{X: r.call(fn, a.ptr, &ast.BasicLit{Kind: token.STRING, Value: strconv.Quote(a.what)})})
+	}
+	return out
+}
+
+// stmtAccesses: reads announced before s, writes announced after s.
+func (r *rewriter) stmtAccesses(s ast.Stmt, rd, wr *accSet) {
+	switch x := s.(type) {
+	case *ast.ExprStmt:
+		r.reads(x.X, rd)
+		if c, ok := x.X.(*ast.CallExpr); ok {
+			if id, ok := c.Fun.(*ast.Ident); ok && r.isBuiltin(id, "delete") && len(c.Args) == 2 {
+				wr.add(r.mapAccess(c.Args[0], true))
+			}
+		}
+	case *ast.AssignStmt:
+		for _, e := range x.Rhs {
+			r.reads(e, rd)
+		}
+		for _, l := range x.Lhs {
+			if x.Tok == token.DEFINE {
+				if id, ok := l.(*ast.Ident); ok && r.info.Defs[id] != nil {
+					continue // a new variable
+				}
+			}
+			if x.Tok != token.ASSIGN && x.Tok != token.DEFINE {
+				r.reads(l, rd) // op=
+			}
+			r.target(l, rd, wr)
+		}
+	case *ast.IncDecStmt:
+		r.reads(x.X, rd)
+		r.target(x.X, rd, wr)
+	case *ast.SendStmt:
+		r.reads(x.Chan, rd)
+		r.reads(x.Value, rd)
+	case *ast.ReturnStmt:
+		for _, e := range x.Results {
+			r.reads(e, rd)
+		}
+	case *ast.GoStmt:
+		r.reads(x.Call, rd)
+	case *ast.DeferStmt:
+		r.reads(x.Call, rd)
+	case *ast.DeclStmt:
+		if g, ok := x.Decl.(*ast.GenDecl); ok {
+			for _, sp := range g.Specs {
+				if vs, ok := sp.(*ast.ValueSpec); ok {
+					for _, v := range vs.Values {
+						r.reads(v, rd)
+					}
+				}
+			}
+		}
+	case *ast.IfStmt:
+		if x.Init != nil {
+			r.stmtAccesses(x.Init, rd, rd) // writes of the init statement: announced before as well (no later place)
+		}
+		r.reads(x.Cond, rd)
+	case *ast.ForStmt:
+		if x.Init != nil {
+			r.stmtAccesses(x.Init, rd, rd)
+		}
+		r.reads(x.Cond, rd)
+	case *ast.RangeStmt:
+		r.reads(x.X, rd)
+		rd.add(r.mapAccess(x.X, false))
+		if x.Tok == token.ASSIGN {
+			if x.Key != nil {
+				r.target(x.Key, rd, rd)
+			}
+			if x.Value != nil {
+				r.target(x.Value, rd, rd)
+			}
+		}
+	case *ast.SwitchStmt:
+		if x.Init != nil {
+			r.stmtAccesses(x.Init, rd, rd)
+		}
+		r.reads(x.Tag, rd)
+	case *ast.TypeSwitchStmt:
+		if x.Init != nil {
+			r.stmtAccesses(x.Init, rd, rd)
+		}
+		switch a := x.Assign.(type) {
+		case *ast.ExprStmt:
+			r.reads(a.X, rd)
+		case *ast.AssignStmt:
+			for _, e := range a.Rhs {
+				r.reads(e, rd)
+			}
+		}
+	case *ast.SelectStmt:
+		for _, cl := range x.Body.List {
+			cc := cl.(*ast.CommClause)
+			switch c := cc.Comm.(type) {
+			case *ast.SendStmt:
+				r.reads(c.Chan, rd)
+				r.reads(c.Value, rd)
+			case *ast.ExprStmt:
+				r.reads(c.X, rd)
+			case *ast.AssignStmt:
+				for _, e := range c.Rhs {
+					r.reads(e, rd)
+				}
+			}
+		}
+	case *ast.LabeledStmt:
+		r.stmtAccesses(x.Stmt, rd, wr)
+	}
+}
+
+// instrNested rewrites the statement lists nested inside s (blocks, clauses,
+// function literals anywhere in its expressions).
+func (r *rewriter) instrNested(s ast.Stmt) {
+	switch x := s.(type) {
+	case *ast.BlockStmt:
+		x.List = r.instrList(x.List)
+		return
+	case *ast.IfStmt:
+		x.Body.List = r.instrList(x.Body.List)
+		if x.Else != nil {
+			r.instrNested(x.Else)
+		}
+	case *ast.ForStmt:
+		x.Body.List = r.instrList(x.Body.List)
+		// condition and post statement are evaluated on every iteration
+		var rd, wr accSet
+		r.reads(x.Cond, &rd)
+		if x.Post != nil {
+			r.stmtAccesses(x.Post, &rd, &rd)
+		}
+		if len(rd.list) > 0 {
+			x.Body.List = append(r.emit(rd.list), x.Body.List...)
+		}
+		_ = wr
+	case *ast.RangeStmt:
+		x.Body.List = r.instrList(x.Body.List)
+	case *ast.SwitchStmt:
+		for _, c := range x.Body.List {
+			cc := c.(*ast.CaseClause)
+			cc.Body = r.instrList(cc.Body)
+		}
+	case *ast.TypeSwitchStmt:
+		for _, c := range x.Body.List {
+			cc := c.(*ast.CaseClause)
+			cc.Body = r.instrList(cc.Body)
+		}
+	case *ast.SelectStmt:
+		for _, c := range x.Body.List {
+			cc := c.(*ast.CommClause)
+			cc.Body = r.instrList(cc.Body)
+		}
+	case *ast.LabeledStmt:
+		r.instrNested(x.Stmt)
+	}
+	// function literals in the statement's own expressions
+	ast.Inspect(s, func(n ast.Node) bool {
+		switch y := n.(type) {
+		case *ast.BlockStmt:
+			return n == ast.Node(s) // nested blocks were handled above
+		case *ast.FuncLit:
+			y.Body.List = r.instrList(y.Body.List)
+			return false
+		case *ast.CaseClause, *ast.CommClause:
+			return false
+		}
+		return true
+	})
+}
+
+func (r *rewriter) instrList(list []ast.Stmt) []ast.Stmt {
+	var out []ast.Stmt
+	for _, s := range list {
+		r.instrNested(s)
+		var rd, wr accSet
+		r.stmtAccesses(s, &rd, &wr)
+		out = append(out, r.emit(rd.list)...)
+		out = append(out, s)
+		out = append(out, r.emit(wr.list)...)
+	}
+	return out
+}
